@@ -15,51 +15,69 @@ def g1(xs, lead=0):
     return [key(lead, 0, 0, 0, 0, 0, 0, x) for x in xs]
 
 
-def U(id, base, delta, probes=(), variants=(0,), kind="u64", tiers=("quick", "thorough"), deep=False, vlens=None):
+def U(id, base, delta, probes=(), variants=(0,), kind="u64", tiers=("quick", "thorough"), deep=False, vlens=None,
+      full_prefix_word=False):
+    assert len(set(base) | set(delta)) == len(base) + len(delta), "duplicate key in universe " + id
+    if not deep:
+        # clear() lets any two keys be alone in the tree: outside the known finding no two keys of a universe may share more
+        # than the 7 bytes an inner node's prefix can hold
+        ks = [bytes.fromhex(k) for k in list(base) + list(delta)]
+        for i in range(len(ks)):
+            for j in range(i + 1, len(ks)):
+                n = 0
+                while n < min(len(ks[i]), len(ks[j])) and ks[i][n] == ks[j][n]:
+                    n += 1
+                assert n <= 7, "universe %s: keys %s and %s share %d bytes" % (id, ks[i].hex(), ks[j].hex(), n)
     return dict(id=id, kind=kind, base=list(base), delta=list(delta), probes=list(probes), variants=list(variants),
-                tiers=tiers, deep=deep, vlens=vlens)
+                tiers=tiers, deep=deep, vlens=vlens, full_prefix_word=full_prefix_word)
 
 
 def u64_universes():
     out = []
+    n1 = [key(1, 0, 0, 0, 0, 0, 0, x) for x in (1, 2, 3, 4, 5, 6)]
+    n2 = [key(2, 0, 0, 0, 0, 0, 0, x) for x in (1, 2, 3)]
     # G2: two levels, collapse of the root into the inner node, leaf split, I4 <-> I16 below an I4 parent
-    out.append(U("g2-two-level", [key(3)],
-                 [key(1, 0, 0, 0, 0, 0, 0, x) for x in (1, 2, 3, 4, 5)] + [key(2, 0, 0, 0, 0, 0, 0, 1), key(2, 0, 0, 0, 0, 0, 0, 2)],
-                 probes=[key(1, 0, 0, 9), key(4)], variants=(0, 5)))
-    # G1 4/5 boundary at the root + a key that splits the 7-byte prefix
-    out.append(U("g1-i4-i16", g1([1, 2, 3]), g1([4, 5, 6, 7]) + [key(0, 0, 0, 9), key(0, 0, 0, 0, 0, 0, 7)],
+    out.append(U("g2-two-level", [key(3)], n1 + n2 + [key(4)], probes=[key(1, 0, 0, 9), key(5)], variants=(0, 6)))
+    # G1 4/5 boundary at the root + keys that split the 7-byte prefix at several positions
+    out.append(U("g1-i4-i16", g1([1, 2, 3]), g1([4, 5, 6, 7, 8]) + [key(0, 0, 0, 9), key(0, 0, 0, 0, 0, 0, 7), key(9), key(0, 0, 0, 0, 0, 0, 7, 1)],
                  probes=[key(0, 0, 0, 0, 0, 0, 0, 0x80), key(0, 0, 1)], variants=(0,)))
-    # G3: prefix split at every position of a 7-byte prefix (and collapse with prepend)
+    # G3: prefix split at every position of a 7-byte prefix (and collapse with prepend), two siblings coming and going
     out.append(U("g3-prefix-split", g1([1, 2]),
-                 [key(*([0] * j + [9])) for j in range(0, 7)], probes=[key(0, 0, 0, 0, 5)], variants=(1,)))
+                 [key(*([0] * j + [9])) for j in range(0, 7)] + g1([3]) + [key(0, 0, 0, 9, 1)], probes=[key(0, 0, 0, 0, 5)], variants=(1,)))
     # G4: leaf split with every shared length
     out.append(U("g4-leaf-split", [],
-                 [key(7, 7, 7, 7, 7, 7, 7, 7)] + [key(*([7] * j + [8])) for j in (0, 2, 4, 6, 7)] + [key(7, 7, 7, 7, 7, 7, 7, 9)],
+                 [key(7, 7, 7, 7, 7, 7, 7, 7)] + [key(*([7] * j + [8])) for j in range(0, 8)] + [key(7, 7, 7, 7, 7, 7, 7, 9)],
                  probes=[key(7, 7, 7, 7, 6)], variants=(0,)))
     # three levels, inner nodes with prefixes of different lengths
     out.append(U("three-level", [key(1, 1, 1), key(2)],
-                 [key(1, 1, 2), key(1, 2, 1), key(1, 2, 2), key(1, 1, 1, 0, 0, 0, 0, 1), key(3), key(1, 3)],
-                 probes=[key(1, 1, 3), key(1, 0)], variants=(2,)))
+                 [key(1, 1, 2), key(1, 2, 1), key(1, 2, 2), key(1, 1, 1, 0, 0, 0, 0, 1), key(3), key(1, 3), key(1, 1, 3), key(1, 2, 1, 1),
+                  key(1, 2, 1, 2)],
+                 probes=[key(1, 1, 4), key(1, 0)], variants=(2,)))
     # 16/17 boundary: I16 <-> I48 (slot layouts multiply the implementation states)
-    out.append(U("g1-i16-i48", g1(range(1, 15)), g1([15, 16, 17, 18, 19]), probes=g1([0, 200]), variants=()))
+    out.append(U("g1-i16-i48", g1(range(1, 14)), g1([14, 15, 16, 17, 18, 19]), probes=g1([0, 200]), variants=()))
     # 48/49 boundary
-    out.append(U("g1-i48-i256", g1(range(1, 47)), g1([47, 48, 49, 50, 51]), probes=g1([0, 200]), variants=()))
+    out.append(U("g1-i48-i256", g1(range(1, 46)), g1([46, 47, 48, 49, 50, 51]), probes=g1([0, 200]), variants=()))
     # fill to 256 and come back
-    out.append(U("g1-full-256", g1([x for x in range(256) if x not in (0, 100, 200, 255)]), g1([0, 100, 200, 255]),
-                 probes=[key(0, 0, 0, 0, 0, 0, 1)], variants=(), tiers=("quick", "thorough")))
+    out.append(U("g1-full-256", g1([x for x in range(256) if x not in (0, 100, 101, 200, 255)]), g1([0, 100, 101, 200, 255]),
+                 probes=[key(0, 0, 0, 0, 0, 0, 1)], variants=()))
     # boundaries below an I16 parent with its own prefix
     wide = [key(9, 9, x) for x in (3, 4, 5, 6, 7)]
-    out.append(U("below-i16", wide, [key(9, 9, 1, 0, 0, 0, 0, x) for x in (1, 2, 3, 4, 5)] + [key(9, 9, 2)],
-                 probes=[key(9, 8), key(9, 9, 1, 1)], variants=(0,), tiers=("thorough",)))
+    out.append(U("below-i16", wide, [key(9, 9, 1, 0, 0, 0, 0, x) for x in (1, 2, 3, 4, 5)] + [key(9, 9, 2), key(9, 9, 8), key(9, 8)],
+                 probes=[key(9, 7), key(9, 9, 1, 1)], variants=(0,)))
     # sparse keys, no base
     out.append(U("sparse", [],
                  ["0123456789abcdef", "0123456789abcdee", "01234567ffffffff", "fedcba9876543210", "0000000000000000",
-                  "ffffffffffffffff", "0123000000000000"], probes=["8000000000000000"], variants=(0,)))
+                  "ffffffffffffffff", "0123000000000000", "0123456789abcd00", "8000000000000000"], probes=["7fffffffffffffff"], variants=(0,)))
+    # the stale-prefix-byte argument of DESIGN.md section 3, cross-checked with the full prefix word in the state identity
+    out.append(U("g3-full-prefix-word", g1([1, 2]), [key(9), key(0, 9), key(0, 0, 9), key(0, 0, 0, 9)], probes=[], variants=(1,),
+                 tiers=("thorough",), full_prefix_word=True))
     # thorough: larger delta sets
     out.append(U("g2-two-level-big", [key(3)],
-                 [key(1, 0, 0, 0, 0, 0, 0, x) for x in (1, 2, 3, 4, 5, 6)] + [key(2, 0, 0, 0, 0, 0, 0, x) for x in (1, 2, 3)] + [key(4)],
+                 n1 + [key(1, 0, 0, 0, 0, 0, 0, 7)] + n2 + [key(2, 0, 0, 0, 0, 0, 0, 4), key(4), key(1, 0, 0, 0, 0, 0, 1, 1)],
                  probes=[key(1, 0, 0, 9), key(5)], variants=(0, 6), tiers=("thorough",)))
-    out.append(U("g1-i16-i48-big", g1(range(1, 14)), g1([14, 15, 16, 17, 18, 19, 20]), probes=g1([0, 200]), variants=(),
+    out.append(U("g1-i16-i48-big", g1(range(1, 13)), g1([13, 14, 15, 16, 17, 18, 19, 20]), probes=g1([0, 200]), variants=(),
+                 tiers=("thorough",)))
+    out.append(U("g1-i48-i256-big", g1(range(1, 44)), g1([44, 45, 46, 47, 48, 49, 50, 51, 52]), probes=g1([0, 200]), variants=(),
                  tiers=("thorough",)))
     return out
 
@@ -74,30 +92,37 @@ def _stretch(k, n):
 
 def kv_universes(keygen=None):
     out = []
-    # one-byte keys: a single node without prefix, every size class
-    out.append(U("kv1-classes", ["%02x" % x for x in (1, 2, 3)], ["%02x" % x for x in (4, 5, 6, 17, 18)],
+    # one-byte keys: a single node without prefix, I4 <-> I16 <-> I48
+    out.append(U("kv1-classes", ["%02x" % x for x in (1, 2, 3)], ["%02x" % x for x in (4, 5, 6, 7, 0x80, 0xfe)],
                  probes=["00", "ff"], variants=(0,), kind="kv"))
+    out.append(U("kv1-i16-i48", ["%02x" % x for x in range(1, 15)], ["%02x" % x for x in (15, 16, 17, 18, 19)],
+                 probes=["00", "ff"], variants=(), kind="kv"))
     # three-byte keys, two levels
     out.append(U("kv3-two-level", ["030000"],
-                 ["0100%02x" % x for x in (1, 2, 3, 4, 5)] + ["020001", "020002", "010100"],
+                 ["0100%02x" % x for x in (1, 2, 3, 4, 5)] + ["020001", "020002", "010100", "0101ff"],
                  probes=["000000", "ffffff", "010009"], variants=(0, 5), kind="kv"))
     # eight-byte keys (same geometry as uint64)
-    out.append(U("kv8-prefix-split", [k for k in g1([1, 2])], [key(*([0] * j + [9])) for j in range(0, 7)],
+    out.append(U("kv8-prefix-split", [k for k in g1([1, 2])], [key(*([0] * j + [9])) for j in range(0, 7)] + g1([3]),
                  probes=[key(0, 0, 0, 0, 5)], variants=(1,), kind="kv"))
     # twelve-byte keys: the uint64 geometry with a four-byte tail (shared runs <= 7 below every node)
-    g2 = [key(3)] + [key(1, 0, 0, 0, 0, 0, 0, x) for x in (1, 2, 3, 4, 5)] + [key(2, 0, 0, 0, 0, 0, 0, 1), key(2, 0, 0, 0, 0, 0, 0, 2)]
+    g2 = [key(3)] + [key(1, 0, 0, 0, 0, 0, 0, x) for x in (1, 2, 3, 4, 5)] + [key(2, 0, 0, 0, 0, 0, 0, 1), key(2, 0, 0, 0, 0, 0, 0, 2), key(4)]
     g2 = [_stretch(k, 12) for k in g2]
     out.append(U("kv12-two-level", g2[:1], g2[1:], probes=[_stretch(key(1, 0, 0, 9), 12)], variants=(0,), kind="kv"))
+    # forty-byte keys: divergence late in the key, shared runs <= 7 below every node (a chain of prefixes is not needed)
+    k40 = [("%02x" % a) * 4 + ("%02x" % b) * 4 + "00" * 32 for a in (1, 2) for b in (1, 2, 3)]
+    out.append(U("kv40", k40[:1], k40[1:], probes=[("03" * 4) + "01" * 4 + "00" * 32], variants=(0,), kind="kv", tiers=("thorough",)))
     # encoder-built keys (text and compound), built with the real key_encoder
     if keygen is not None:
         def enc(*specs):
             r = subprocess.run([keygen] + list(specs), capture_output=True, text=True, check=True)
             return r.stdout.split()
-        texts = enc("t:a", "t:b", "t:ab", "t:abc", "t:abd", "t:b0", "t:", "t:zzzz")
+        texts = enc("t:a", "t:b", "t:ab", "t:abc", "t:abd", "t:b0", "t:", "t:zzzz", "t:abcdefgh", "t:abcdefgi")
         out.append(U("kv-text", texts[:1], texts[1:], probes=enc("t:aa", "t:c"), variants=(1,), kind="kv"))
         comp = enc("u16:1+t:x+u8:0", "u16:1+t:x+u8:255", "u16:1+t:y+u8:0", "u16:2+t:x+u8:0", "u16:1+t:xy+u8:0",
-                   "u16:1+t:+u8:7", "u16:258+t:x+u8:0")
+                   "u16:1+t:+u8:7", "u16:258+t:x+u8:0", "u16:1+t:x+u8:1", "u16:0+t:zz+u8:9")
         out.append(U("kv-compound", comp[:1], comp[1:], probes=enc("u16:1+t:w+u8:0", "u16:3+t:+u8:0"), variants=(0,), kind="kv"))
+        mixed = enc("i32:-5+f:1.5", "i32:-5+f:-1.5", "i32:7+f:0", "i32:-2147483648+f:1e30", "i32:7+f:-0.0", "i32:0+f:2.5", "i32:-5+f:1.25")
+        out.append(U("kv-int-float", mixed[:1], mixed[1:], probes=enc("i32:1+f:1"), variants=(0,), kind="kv"))
         # deep shared prefixes: ordinary compound keys that share >= 8 bytes below a node (known finding, C01)
         deep = enc("u32:1+t:x+u16:0", "u32:1+t:x+u16:65535", "u32:1+t:x+u16:256", "u32:2+t:x+u16:0")
         out.append(U("kv-deep-compound", [], deep, probes=[], variants=(), kind="kv", deep=True))
